@@ -162,6 +162,7 @@ var punctRe = regexp.MustCompile(`^[^A-Za-z0-9_<\s]+$|^<=?$`)
 
 func rulePrint(c *Ctx) {
 	regexTextSingleLine(c)
+	groupingPrinted(c)
 	lt := c.lexTables()
 	if !lt.ok {
 		c.undecided("anchor:lexer-tables", token.NoPos, "tokenNames / keywordTokens / Lexer.scan switch not extractable (%d/%d/%d entries)", len(lt.tokenText), len(lt.keyword), len(lt.scanText))
